@@ -4,10 +4,12 @@ import (
 	"bytes"
 	"context"
 	"encoding/binary"
+	"errors"
 	"fmt"
 	"net"
 	"runtime"
 	"sync"
+	"sync/atomic"
 	"time"
 
 	p9p "github.com/frobnitzem/go-p9p"
@@ -20,22 +22,34 @@ func init() { Registry["C02"] = c02 }
 // capConn records everything written to it; reads see EOF.
 type capConn struct {
 	buf bytes.Buffer
+	// noDeadlines: a connection that cannot do deadlines (a pipe to a
+	// subprocess, an ssh channel): Set*Deadline report an error, I/O works
+	noDeadlines bool
 }
 
-func (c *capConn) Read(p []byte) (int, error)         { return 0, net.ErrClosed }
-func (c *capConn) Write(p []byte) (int, error)        { return c.buf.Write(p) }
-func (c *capConn) Close() error                       { return nil }
-func (c *capConn) LocalAddr() net.Addr                { return nil }
-func (c *capConn) RemoteAddr() net.Addr               { return nil }
-func (c *capConn) SetDeadline(t time.Time) error      { return nil }
-func (c *capConn) SetReadDeadline(t time.Time) error  { return nil }
-func (c *capConn) SetWriteDeadline(t time.Time) error { return nil }
+var errNoDeadline = errors.New("deadlines not supported")
+
+func (c *capConn) Read(p []byte) (int, error)        { return 0, net.ErrClosed }
+func (c *capConn) Write(p []byte) (int, error)       { return c.buf.Write(p) }
+func (c *capConn) Close() error                      { return nil }
+func (c *capConn) LocalAddr() net.Addr               { return nil }
+func (c *capConn) RemoteAddr() net.Addr              { return nil }
+func (c *capConn) SetDeadline(t time.Time) error     { return nil }
+func (c *capConn) SetReadDeadline(t time.Time) error { return nil }
+func (c *capConn) SetWriteDeadline(t time.Time) error {
+	if c.noDeadlines {
+		return errNoDeadline
+	}
+	return nil
+}
 
 var cancelledCtx = func() context.Context {
 	ctx, cancel := context.WithCancel(context.Background())
 	cancel()
 	return ctx
 }()
+
+var c02Chans int64
 
 type c02Chan struct {
 	conn *capConn
@@ -45,7 +59,8 @@ type c02Chan struct {
 // newC02Chan builds a channel whose msize is m, either directly or the way
 // sessions do (created with the default msize, then lowered).
 func newC02Chan(m int, viaSet bool) *c02Chan {
-	c := &c02Chan{conn: &capConn{}}
+	// every second channel sits on a connection without deadline support
+	c := &c02Chan{conn: &capConn{noDeadlines: atomic.AddInt64(&c02Chans, 1)%2 == 0}}
 	if viaSet && m <= p9p.DefaultMSize {
 		c.ch = p9p.NewChannel(c.conn, p9p.DefaultMSize)
 		c.ch.SetMSize(m)
